@@ -105,19 +105,33 @@ class World:
         class RecDevice(Device):
             def __init__(self, did, name):
                 self.did, self.devname = did, name
+                self.inbox = []
 
             def accepts(self, device):
                 return self.devname == "*" or device is None or device == self.devname
 
             def message_from_client(self, message):
                 world.log.append((self.did, message))
+                self.inbox.append(message)
+
+            # endpoints are containers of what they received (an application's choice): EMPTY ONES ARE FALSY, which must not
+            # matter to the router (`if sender:` is not `if sender is not None:`)
+            inbox = None
+
+            def __len__(self):
+                return len(self.inbox)
 
         class RecClient(Client):
             def __init__(self, cid):
                 self.cid = cid
+                self.inbox = []
 
             def message_from_device(self, message):
                 world.log.append((self.cid, message))
+                self.inbox.append(message)
+
+            def __len__(self):
+                return len(self.inbox)
 
         class RealDriver(Driver):
             # the library's own Driver (its accepts() and name handling), recording instead of acting
@@ -144,7 +158,7 @@ class World:
     def obj(self, eid):
         if eid is None:
             return None
-        return self.dev_objs.get(eid) or self.cli_objs[eid]
+        return self.dev_objs[eid] if eid in self.dev_objs else self.cli_objs[eid]
 
     def senders(self):
         return self.cli_ids + self.dev_ids + [None]
